@@ -101,12 +101,15 @@ static uint64_t thash ;	/* transcript of every checked call's return value and p
 #define V16(sig, ...) do { if (is_c16 && ! mute) vl_violation (rt_sig ("%s|" sig, RS), __VA_ARGS__) ; } while (0)
 
 static int fd_baseline = -1 ;
+/* resource release: C16 for every history; C15 says "sf_close still releases every resource" / "a failing sf_open ... releases everything"
+** for histories in which the I/O failed, so there it is reported under C15 as well */
+#define VRES(sig, ...) do { if (! mute && (is_c16 || faults_delivered > 0)) vl_violation (rt_sig ("%s|" sig, RS), __VA_ARGS__) ; } while (0)
 static void after_close_checks (int close_rc, int device_close_failed, const char *what)
-{	if (sio_live_blocks () != 0) V16 ("leak-memory", "%s: %ld blocks (%ld bytes) obtained by the library are still allocated (first: %s)", what, sio_live_blocks (), sio_live_bytes (), sio_first_live ()) ;
-	if (sio_lib_fds_open () != 0) V16 ("leak-descriptor", "%s: %ld descriptors opened by the library are still open", what, sio_lib_fds_open ()) ;
-	if (sio_lib_files_open () != 0) V16 ("leak-stream", "%s: %ld stdio streams opened by the library are still open", what, sio_lib_files_open ()) ;
-	if (fd_baseline >= 0 && sio_fd_count () != fd_baseline) V16 ("leak-descriptor-table", "%s: the process has %d open descriptors, %d before the history", what, sio_fd_count (), fd_baseline) ;
-	if (private_tmp_count () != 0) { V16 ("leak-tempfile", "%s: %d files left in the private temporary / working directory", what, private_tmp_count ()) ; private_tmp_clean () ; }
+{	if (sio_live_blocks () != 0) VRES ("leak-memory", "%s: %ld blocks (%ld bytes) obtained by the library are still allocated (first: %s)", what, sio_live_blocks (), sio_live_bytes (), sio_first_live ()) ;
+	if (sio_lib_fds_open () != 0) VRES ("leak-descriptor", "%s: %ld descriptors opened by the library are still open", what, sio_lib_fds_open ()) ;
+	if (sio_lib_files_open () != 0) VRES ("leak-stream", "%s: %ld stdio streams opened by the library are still open", what, sio_lib_files_open ()) ;
+	if (fd_baseline >= 0 && sio_fd_count () != fd_baseline) VRES ("leak-descriptor-table", "%s: the process has %d open descriptors, %d before the history", what, sio_fd_count (), fd_baseline) ;
+	if (private_tmp_count () != 0) { VRES ("leak-tempfile", "%s: %d files left in the private temporary / working directory", what, private_tmp_count ()) ; private_tmp_clean () ; }
 	if (close_rc != 0 && ! device_close_failed && plan.nfaults == 0) V16 ("close-nonzero", "%s: sf_close returned %d although no I/O failed", what, close_rc) ;
 }
 
@@ -751,7 +754,10 @@ static void probe_image (const Seed *s, const unsigned char *img, sf_count_t len
 		}
 	if (sf)
 	{	if (info.channels >= 1 && info.channels <= 1024)
-		{	static short buf [4 * 1024 + 16] ; vl_read (sf, T_SHORT, 1, buf, 4) ; INLIB (sf_get_string (sf, SF_STR_TITLE)) ; }
+		{	static short buf [4 * 1024 + 16] ; int rounds = 0 ;
+			vl_read (sf, T_SHORT, 1, buf, 4) ; INLIB (sf_get_string (sf, SF_STR_TITLE)) ;
+			while (rounds ++ < 16 && vl_read (sf, T_SHORT, 0, buf, 4096 - 4096 % info.channels) > 0) ;	/* the rest of a small file */
+			}
 		INLIB (rc = sf_close (sf)) ;
 		}
 	if (route == R_PATH) sio_set_fault (NULL, NULL) ;
@@ -771,7 +777,7 @@ static void c16_mutant (const Seed *s, const Mut *m, int routes_mask, int pairs)
 	{	if (! vl_peek ()) { vl_skip (1) ; continue ; }
 		if (! described) { hc_describe (m, desc, sizeof (desc)) ; described = 1 ; }
 		if (vl_case ("C16 X seed=%s fam=%s %s route=%s mode=%d", s->name, hc_family (m), desc, route_names [plan_route [k]], plan_mode [k]))
-		{	if (len < 0) { if (2 * s->len + 4096 > work_cap) { work_cap = 4 * s->len + 8192 ; work = realloc (work, work_cap) ; } len = hc_materialise (s, m, work) ; }
+		{	if (len < 0) { if (2 * s->len + 8192 > work_cap) { work_cap = 4 * s->len + 16384 ; work = realloc (work, work_cap) ; } len = hc_materialise (s, m, work) ; }
 			vl_root_count (s->fam) ;
 			snprintf (RS, sizeof (RS), "%s|damaged-file|%s", s->fam, hc_family (m)) ;
 			probe_image (s, work, len, plan_mode [k], plan_route [k]) ;
